@@ -8,9 +8,10 @@ var hostile = []byte{0x00, 0x01, 0x7F, 0x80, 0x81, 0xBF, 0xC0, 0xC1, 0xC2, 0xC3,
 
 // Edit is one byte-level edit; a mutation is a short list of edits applied in order.
 type Edit struct {
-	Op  string `json:"op"` // trunc flip set ins del dup
+	Op  string `json:"op"` // trunc flip set ins del dup run
 	Pos int    `json:"pos"`
 	Val int    `json:"val"`
+	N   int    `json:"n,omitempty"` // run: number of copies of Val inserted
 }
 
 // Mutation draws 1..max edits for an input of length n.
@@ -18,7 +19,7 @@ func Mutation(t *rapid.T, n int, max int) []Edit {
 	k := rapid.IntRange(1, max).Draw(t, "nedits")
 	var out []Edit
 	for i := 0; i < k; i++ {
-		op := rapid.SampledFrom([]string{"trunc", "flip", "flip", "set", "set", "set", "ins", "del", "dup"}).Draw(t, "op")
+		op := rapid.SampledFrom([]string{"trunc", "flip", "flip", "set", "set", "set", "ins", "del", "dup", "run"}).Draw(t, "op")
 		e := Edit{Op: op}
 		if n > 0 {
 			e.Pos = rapid.IntRange(0, n-1).Draw(t, "pos")
@@ -34,6 +35,10 @@ func Mutation(t *rapid.T, n int, max int) []Edit {
 			}
 		case "dup":
 			e.Val = rapid.IntRange(1, 16).Draw(t, "len")
+		case "run":
+			// a run of identical hostile octets (e.g. repeated 16K-fragment headers c1..c4, ff, 80)
+			e.Val = int(hostile[rapid.IntRange(0, len(hostile)-1).Draw(t, "h")])
+			e.N = rapid.IntRange(2, 64).Draw(t, "runlen")
 		}
 		out = append(out, e)
 	}
@@ -63,6 +68,12 @@ func Apply(b []byte, edits []Edit) []byte {
 			out = append(out[:p], append([]byte{byte(e.Val)}, out[p:]...)...)
 		case "del":
 			out = append(out[:p], out[p+1:]...)
+		case "run":
+			run := make([]byte, e.N)
+			for i := range run {
+				run[i] = byte(e.Val)
+			}
+			out = append(out[:p], append(run, out[p:]...)...)
 		case "dup":
 			q := p + e.Val
 			if q > n {
